@@ -1,5 +1,6 @@
 import WpModel.Drive.Loop
 import WpModel.Drive.Paginate
 import WpModel.Drive.Total
+import WpModel.Drive.Trace
 
-def main : IO Unit := Wp.Drive.runDriver [Wp.Drive.Paginate.handle, Wp.Drive.Total.handle]
+def main : IO Unit := Wp.Drive.runDriver [Wp.Drive.Paginate.handle, Wp.Drive.Total.handle, Wp.Drive.Trace.handle]
